@@ -459,6 +459,11 @@ class Use:
                 if 'nullptr_t' in at or a.get('type', {}).get('qualType') == 'oclhptr_t':
                     vals.append(PtrV(None, I(0), parse_type(a['type'])))      # defaulted OpenCL handle: nullptr in this build
                     continue
+                pd = getattr(c, 'param_defaults', {})
+                pname = c.params[len(vals)] if len(vals) < len(c.params) else None
+                if pname in pd:
+                    vals.append(pd[pname]())        # default stated by the contract (constructor calls carry no callee node to look it up)
+                    continue
                 vals.append(default_arg(ex, n, st, ai))
                 continue
             ct = parse_type(a['type'])
